@@ -229,7 +229,8 @@ class C18(Check):
         out = I().run_function(fn, Sym())
         res = []
         for st, _ in out.returns:
-            stores = [e for e in st.events if e[0] == "store" and e[1].startswith("elasticities[")]
+            created = {e[1] for e in st.events if e[0] == "new" and e[2] in ("{}", "dict()")}
+            stores = [e for e in st.events if e[0] == "store" and "[" in e[1] and e[1].split("[")[0] in created]
             if stores:
                 res.append((st, "elasticity", stores[-1][2]))
                 continue
